@@ -9,6 +9,26 @@ Q = "/venv/bin/python /verif/fv/check.py {id} --tier quick"
 T = "/venv/bin/python /verif/fv/check.py {id} --tier thorough"
 
 CLAIMS = {
+    "C06": dict(
+        technique="non-commutative normal forms of three sibling implementations (Python ast interpreter, clang AST) + path/effect facts; static",
+        engine="E2/E3 interpreter + E4 cppast/witness",
+        text="Static: python.remove_innovation, the C++ helper removeInnovation and the generated sensor_model template are reduced to "
+             "normal forms (NIS = y^T.Inv(S).y as matrix products, bound = k*sqrt(2m)+m, strict >) and compared pairwise; the decision is "
+             "taken on (z-h, Inv(S)) of this update; on rejection both filters return their own arguments with the innovation already "
+             "recorded; the disabled setting (None in Python, 0.0 behind if-constexpr in C++) never reaches the decision; the decision "
+             "function keeps no state.",
+        note="Not decided: ulp-level agreement at the boundary (numpy vs Eigen summation order). Trusts clang's front end and the stand-in Eigen's typing.",
+        ref="3/C06"),
+    "C12": dict(
+        technique="compile-fail witnesses: clang++ -fsyntax-only on TUs derived from the generator by partial evaluation; static",
+        engine="E4 witness + minieval + E5 rtmodel",
+        text="Static: for all control x calibration valuations (x filtering on/off; thorough: 0 sensors, 1-sized and 7-state variants) a witness "
+             "TU built from the generator's own declaration skeleton (derived from ast_fragments.py / cpp._header_body by partial evaluation), "
+             "the repo's templates, ManagedFilter.h and innovation_filtering.h and a dimension-typed Eigen stand-in is type-checked: "
+             "compatible, construction, tick with/without readings, by-hand calls. Reading::sensor_model delegates to the filter; the C++ "
+             "step/tick plans satisfy C10/C11's rules.",
+        note="Not decided: linking, real Eigen, the sympy-printed bodies (C02). Trusts clang, the stand-in Eigen, and that fv.minieval's printer mirrors ast_tools.",
+        ref="3/C12"),
     "C01": dict(
         technique="abstract interpretation over a name-layout domain + symbolic evaluation of the temporaries protocol (static)",
         engine="E2 layout + tmprules",
